@@ -26,7 +26,7 @@ CANON_PAIRS = [p for p in mdl.WRITER_PAIRS if p != (mdl.BLENDWEIGHTS, mdl.BYTE4)
 def plan(tier):
     if tier == "quick":
         return [("debug", 16, dict(n=40, steps=4, maxv=400, sweep="small")), ("release", 4, dict(n=25, steps=4, maxv=400, sweep="none"))]
-    return [("debug", 16, dict(n=95, steps=8, maxv=65535, sweep="full")), ("release", 4, dict(n=60, steps=6, maxv=8000, sweep="none")), ("asan", 4, dict(n=10, steps=4, maxv=1500, sweep="none"))]
+    return [("debug", 16, dict(n=220, steps=8, maxv=65535, sweep="full")), ("release", 8, dict(n=120, steps=6, maxv=8000, sweep="none")), ("asan", 4, dict(n=25, steps=4, maxv=1500, sweep="none"))]
 
 
 def canon_half(h):
